@@ -21,6 +21,9 @@ OL_CLASS_DICT: _ol_reserved_name = "__ol_classnsp_{}"
 OL_CLASS_LOADER: _ol_reserved_name = "__ol_loader_{}"
 OL_CLASS_HEADER_TMP: _ol_reserved_name = "__ol_clshdr_{}"
 OL_IMPORT_TMP: _ol_reserved_name = "__ol_mod_{}"
+OL_WHILE_TMP: _ol_reserved_name = "__ol_while_{}"
+OL_ITERTOOLS: _ol_reserved_name = "__ol_itertools"  # don't need format here
+OL_IMPORTLIB: _ol_reserved_name = "__ol_importlib"  # don't need format here
 
 
 def ol_name(name: _ol_reserved_name):
